@@ -449,6 +449,7 @@ func (p *sparser) parsePrimary() Expr {
 // ---------- contract blocks ----------
 
 type Clause struct {
+	Group string
 	Kind      string   // requires ensures invariant
 	Tags      []string // property ids; empty = always
 	Text      string
